@@ -56,6 +56,7 @@ def run (j : Json) : Except String Json := do
       | .error e =>
         outs := outs.push (obj [("bind", bindJson), ("err", Json.str e.name), ("out", Json.null), ("posted", Json.null)])
         names := names.push none
+        g := g.afterFailedTag T r.tag bind r.kwargs
       | .ok res =>
         let out := match Flatland.C11.renderTag attrChain voidElements g.xml r.tag res.pairs res.contents with
           | .ok s => ofStr s
@@ -66,7 +67,7 @@ def run (j : Json) : Except String Json := do
           if r.tag = sOption then
             match r.within with
             | some i => match names[i]? with
-              | some (some n) => submittedOption T n attrs text
+              | some (some n) => submittedOption n attrs text
               | _ => none
             | none => none
           else submitted r.tag attrs text
